@@ -202,8 +202,15 @@ def oracle_gsequ(ar, nrow, ncol, ents, out, sentinel):
         if not clipped and abs(Ri * rm[i] - 1) > 2 * u + cu:
             f.append("row %d: max |R*a| = %s differs from 1 by more than rounding" % (i, float(Ri * rm[i])))
     amax = max(rm)
-    if abs(Fraction(out["amax"]) - amax) > amax * cu:
+    fmaxv = Fraction(2 - 2 * u) / Fraction(ar.sfmin) * 2        # largest finite number of the precision
+    if amax > fmaxv:
+        return f            # a complex modulus |re|+|im| beyond the finite range: outside the property (Inf excluded)
+    if not finite(out["amax"]) or abs(Fraction(out["amax"]) - amax) > amax * cu:
         f.append("amax=%r is not the largest magnitude %s" % (out["amax"], float(amax)))
+        return f
+    for k in ("rowcnd", "colcnd"):
+        if out[k] != sentinel and not finite(out[k]):
+            f.append("%s=%r is not finite" % (k, out[k])); return f
     rmin, rmax = min(rm), max(rm)
     tiny = Fraction(ar.sfmin) * 2 * u           # the smallest denormal: absolute slack of results in the denormal range
     if sml <= rmin * (1 - cu) and rmax * (1 + cu) <= big:        # "unless clipped": the ratio of the smallest to the largest R
@@ -249,22 +256,18 @@ def oracle_laqgs(ar, nrow, ncol, ents, r, c, rowcnd, colcnd, amax, equed, aout):
     f = []
     if nrow <= 0 or ncol <= 0:
         return f if equed == NOEQUIL else ["empty matrix but equed=%d" % equed]
+    if not (finite(rowcnd) and finite(colcnd) and finite(amax)) or any(not finite(x) for x in list(r) + list(c)):
+        return f                              # Inf/NaN (e.g. an overflowed complex modulus): outside the property
     small = Fraction(ar.sfmin) / Fraction(ar.prec)
     large = 1 / small
-    th = Fraction(1, 10)
-    # the code compares with the double constant 0.1: inputs within one part in 2^50 of 1/10 are not decided here
+    th = Fraction(0.1)                     # THRESH (0.1): the double constant, in all four twins
     def lt_th(x):
-        x = Fraction(x)
-        if abs(x - th) <= th / 2 ** 50:
-            return None
-        return x < th
+        return Fraction(x) < th
     rowneed = lt_th(rowcnd)
     colneed = lt_th(colcnd)
     am = Fraction(amax)
     if rowneed is False and (am < small or am > large):
         rowneed = True
-    if rowneed is None or colneed is None:
-        return f
     want = {(False, False): NOEQUIL, (False, True): COL, (True, False): ROW, (True, True): BOTH}[(rowneed, colneed)]
     if equed != want:
         f.append("equed=%d but the documented rule gives %d (rowcnd=%r colcnd=%r amax=%r)" % (equed, want, rowcnd, colcnd, amax))
